@@ -376,14 +376,26 @@ impl<T: CountMinValue> CountMinSketch<T> {
         }
 
         let entries = entries_for_config_checked(num_hashes, num_buckets)?;
+        let is_empty = (flags & FLAGS_IS_EMPTY) != 0;
+        // a non-empty image carries the total and the whole table: check before allocating it
+        if !is_empty && (entries + 1).saturating_mul(LONG_SIZE_BYTES) > cursor.remaining() {
+            return Err(Error::insufficient_data("counts"));
+        }
         let mut sketch = Self::make(num_hashes, num_buckets, seed, entries);
-        if (flags & FLAGS_IS_EMPTY) != 0 {
+        if is_empty {
             return Ok(sketch);
         }
 
         sketch.total_weight = read_value(&mut cursor, "total_weight")?;
+        if sketch.total_weight < T::ZERO {
+            return Err(Error::deserial("total_weight must not be negative"));
+        }
         for count in &mut sketch.counts {
             *count = read_value(&mut cursor, "counts")?;
+            // every counter is a sum of weights whose absolute values add up to total_weight
+            if count.to_f64().abs() > sketch.total_weight.to_f64() {
+                return Err(Error::deserial("counter exceeds total_weight"));
+            }
         }
         Ok(sketch)
     }
